@@ -136,6 +136,39 @@ def judge_bc(case, impl):
     return "; ".join(problems) if problems else None
 
 
+def ref_ncs(ct, local, funder, v, s, addl, fr, spike, dust, hs):
+    """Independent statement of what get_next_commitment_stats promises: Ok(holder, counterparty) iff both
+    parties can pay for their HTLCs, the funder for anchors and the fee of the non-dust HTLCs (+addl) at
+    the (possibly spiked) feerate, and the commitment keeps at least one output."""
+    V = v * 1000
+    O = sum(a for (o, a) in hs if o)
+    I = sum(a for (o, a) in hs if not o)
+    if s > V or O > s or I > V - s:
+        return None
+    w = ref_weights(ct)
+    anchors = 660 if ct == 1 else 0
+    holder, cp = s - O, V - s - I
+    if (holder if funder else cp) < anchors * 1000:
+        return None
+    if funder:
+        holder -= anchors * 1000
+    else:
+        cp -= anchors * 1000
+    sfr = min(fr * 2, U32 - 1) if (spike and ct != 1) else fr
+
+    def nondust(feerate):
+        return sum(1 for (o, a) in hs if not (a // 1000 < dust + (0 if ct in (1, 2) else feerate * (w["timeout"] if o == local else w["success"]) // 1000)))
+    snd = nondust(sfr)
+    sfee = sfr * (w["base"] + 172 * snd) // 1000
+    h2, c2 = (max(0, holder - sfee * 1000), cp) if funder else (holder, max(0, cp - sfee * 1000))
+    if h2 < dust * 1000 and c2 < dust * 1000 and snd == 0 and ct != 2:
+        return None
+    fee = sfr * (w["base"] + 172 * (nondust(fr) + addl)) // 1000
+    if (holder if funder else cp) < fee * 1000:
+        return None
+    return (holder - fee * 1000, cp) if funder else (holder, cp - fee * 1000)
+
+
 # ------------------------------------------------------------------ case generation
 def dust_thresholds(ct, fr, dust):
     return sorted(set([dust + ref_htlc_tx_fee(ct, fr, True), dust + ref_htlc_tx_fee(ct, fr, False), dust]))
@@ -435,6 +468,21 @@ def functional(ctx, model_ok):
         if len(c[7]) > 0:
             nontrivial.add(c)
     ctx.coverage["bc_histogram"] = hist
+    # the acceptance check's contract, on the implementation's own answers
+    nok = 0
+    for c, l in zip(ncss, impl_ncs):
+        (ct, local, funder, v, s_, addl, fr, spike, lim, dust, hs) = c
+        if l == "PANIC" or (ct == 2 and fr != 0):
+            continue
+        want = ref_ncs(ct, bool(local), bool(funder), v, s_, addl, fr, bool(spike), dust, [(bool(o), a) for (o, a) in hs])
+        got = None if l == "Err" else tuple(int(x) for x in l.split()[1:3])
+        nok += got is not None
+        if want != got:
+            fails.append({"kind": "get_next_commitment_stats breaks its contract (Ok iff the funder can pay anchors + fee; balances = what is left)",
+                          "why": "implementation %s, contract %s" % (got, want),
+                          "case_line": "ncs %d %d %d %d %d %d %d %d %d %d %d %s" % (ct, local, funder, v, s_, addl, fr, spike, lim, dust, len(hs), " ".join("%d %d" % h for h in hs)),
+                          "impl": l})
+    ctx.coverage["ncs_ok_cases"] = nok
     # ---- model vs implementation
     dis = []
     if model_ok:
@@ -676,7 +724,7 @@ def run(ctx):
         okc, outc = ctx.coq_make(["Model/ChanSys.vo"])
         if okc:
             try:
-                nr, ns, mdis = T.model_correspondence(ctx, ctx.trace_recs, 48 if ctx.tier == "quick" else 1500)
+                nr, ns, mdis = T.model_correspondence(ctx, ctx.trace_recs, 32 if ctx.tier == "quick" else 1500)
                 ctx.coverage["model_replay"] = {"scenarios": nr, "steps": ns, "disagreements": len(mdis)}
             except Exception as ex:
                 mdis = [{"scenario": "?", "step": -1, "what": "model replay failed: %r" % (ex,)}]
@@ -744,6 +792,12 @@ def replay(ctx, rep):
     print("output:", lines[:1])
     a = f["case_line"].split()
     nums = [int(x) for x in a[1:]]
+    if a[0] == "ncs":
+        hs = [(bool(nums[11 + 2 * i]), nums[12 + 2 * i]) for i in range(nums[10])]
+        want = ref_ncs(nums[0], bool(nums[1]), bool(nums[2]), nums[3], nums[4], nums[5], nums[6], bool(nums[7]), nums[9], hs)
+        got = None if (not lines or lines[0] in ("Err", "PANIC")) else tuple(int(x) for x in lines[0].split()[1:3])
+        print("judge :", "ok" if want == got else "implementation %s, contract %s" % (got, want))
+        return 0 if want == got else 1
     hs = tuple((nums[8 + 2 * i], nums[9 + 2 * i]) for i in range(nums[7]))
     why = judge_bc((nums[0], nums[1], nums[2], nums[3], nums[4], nums[5], nums[6], hs), parse_bc_line(lines[0]) if lines else None)
     print("judge :", why or "ok")
